@@ -370,6 +370,24 @@ def r4_modular(L, repo, tier):
     return n_sites
 
 
+def who_may_clear(L, repo, rule):
+    # who may discard queued bursts: only the power-off path. A burst accepted into the queue is transmitted in its
+    # frame (or reported stale); any other caller of tx_queue_clear() loses bursts that arrived in time
+    # (e.g. RFMUTE must turn them into NOPE indications, not drop them: C18).
+    n_call = 0
+    for m in repo.tk_modules():
+        for c in calls_in(m.tree):
+            f = c.func
+            if isinstance(f, ast.Attribute) and f.attr == "tx_queue_clear":
+                n_call += 1
+                qn = qualname(c)
+                L.unit(m.rel)
+                L.ob(rule, m.rel, qn, "queued bursts are discarded only by the power-off handler: `%s`" % canon(c)[:50],
+                     "Transceiver.power_event_handler", qn, qn == "Transceiver.power_event_handler", c.lineno)
+    L.floor(rule, "tx_queue_clear call sites in the toolkit", n_call, 1)
+
+
+
 def r5_poweroff(L, repo):
     F = rel("transceiver")
     ci, fd = repo.need_method("transceiver", "Transceiver", "power_event_handler")
@@ -391,7 +409,7 @@ def r5_poweroff(L, repo):
                   lit_fmt(want), lit_fmt(lits), line=c.lineno)
         L.ob("C03.R5", F, fn, "queue cleared is the loop transceiver's", "loop variable",
              V, lp is not None and V == canon(lp.target), c.lineno)
-    # who else calls power_event_handler with False -> C12
+    who_may_clear(L, repo, "C03.R5")
 
 
 def run(L, tier):
